@@ -72,6 +72,14 @@ Example reported_state_matches_behaviour_example :
   start_dirs (combine witness2 (snd (run (init cfg_w) witness2))) = [(1, 0); (1, 1)].
 Proof. exact example_nontrivial. Qed.
 
+(* Fault stream (outside the property's quantifier; judged on the clause "STOP closes all files"): a STOP issued in
+   any reachable state while the experiment-state file cannot be written still takes the writers from every
+   channel, leaves no channel data file open and nothing is stored afterwards - whatever it replies. *)
+Theorem stop_under_fault_closes_channel_files :
+  forall (c : config) (ops : list op), fault_stop_ok (fault_obs (fst (run (init c) ops))) = true.
+Proof. exact fault_stop_reachable. Qed.
+Print Assumptions stop_under_fault_closes_channel_files.
+
 (* The code as it was before the fixes (SetOFF left the channel's pause flag set; START with a pixel map
    loaded indexed the map at -1): the same histories fail the checker. *)
 Theorem reported_state_matches_behaviour_refuted_pre_fix :
